@@ -419,13 +419,13 @@ def check_structure(term_u, leaves, sql):
     return None
 
 
-def alias_ok(sql_plain, sql_alias):
+def alias_ok(sql_plain, sql_alias, al="al"):
     a = sqllex.lex(sql_plain)
     b = sqllex.lex(sql_alias)
     out = []
     i = 0
     while i < len(b):
-        if (b[i].kind == "qid" and b[i].value == "al" and i + 2 < len(b) and b[i + 1].kind == "op" and b[i + 1].value == "."
+        if (b[i].kind == "qid" and b[i].value == al and i + 2 < len(b) and b[i + 1].kind == "op" and b[i + 1].value == "."
                 and b[i + 2].kind == "qid"):
             out.append(b[i + 2])
             i += 3
@@ -433,7 +433,7 @@ def alias_ok(sql_plain, sql_alias):
             out.append(b[i])
             i += 1
     n_cols = sum(1 for t in a if t.kind == "qid")
-    n_alias = sum(1 for t in b if t.kind == "qid" and t.value == "al")
+    n_alias = sum(1 for t in b if t.kind == "qid" and t.value == al)
     return out == a and n_alias == n_cols
 
 
@@ -604,6 +604,12 @@ def run(ctx):
     nf = odd_field_layer(ctx)
     ctx.layer("non-ascii-field-names", names=len(ODD_FIELDS), templates=len(ODD_FIELD_TEMPLATES), translations=nf, exhaustive=True,
               note="one quoted identifier per reference: the name itself (standard, SQLite), the documented Athena spelling (Athena)")
+    na = alias_spelling_layer(ctx)
+    ctx.layer("alias-spellings", aliases=len(ALIASES), filters=len(ALIAS_FILTERS), translations=na, exhaustive=True,
+              note="the table alias is the caller's: every column is qualified by exactly the alias as given (upper case, dash, blank, non-ASCII), in every dialect")
+    ndt = datetime_literal_layer(ctx)
+    ctx.layer("datetime-components", literals=len(DT_LITERALS), templates=len(DT_TEMPLATES), translations=ndt, exhaustive=True,
+              note="date-time literals (with / without seconds, fraction, Z / signed offset): the one string constant of the SQL reads back, independently, as the same date, time of day, fraction and offset")
     nk = keyword_case_layer(ctx)
     ctx.layer("keyword-literal-case", keywords=len(KW_LITERALS), templates=len(KW_TEMPLATES), translations=nk, exhaustive=True,
               note="every upper/lower-case spelling of true, false, null translates like the lower-case spelling")
@@ -745,6 +751,91 @@ def odd_field_layer(ctx):
                         ctx.violation("%s:odd-field:identifier" % dname, {"filter": text, "dialect": dname, "alias": al, "layer": "odd-fields", "sql": sql, "expected_identifier": want})
                     else:
                         ctx.outcome(("odd-field", "ok"))
+    return n
+
+
+# ---------------------------------------------------------------- date-time literals, component by component (wave 13)
+import re as _re
+DT_LITERALS = [(d, hm, sec, fr, off) for d in ("2019-01-01", "2020-02-29") for hm in ("10:20", "00:00", "23:59") for sec in (None, "30", "00")
+               for fr in ((None,) if sec is None else (None, "5", "123456", "000")) for off in (None, "Z", "+02:00", "-11:30", "+00:00")]
+DT_TEMPLATES = ["d lt {L}", "{L} ge d", "d in ({L}, 2001-01-01T01:01:01Z)", "not (d eq {L})"]
+_DT_READ = _re.compile(r"^(\d{4}-\d{2}-\d{2})[T ](\d{2}:\d{2})(?::(\d{2})(?:\.(\d+))?)?(Z|[+-]\d{2}:\d{2})?$")
+
+
+def _dt_text(c):
+    d, hm, sec, fr, off = c
+    return d + "T" + hm + ((":" + sec + (("." + fr) if fr else "")) if sec is not None else "") + (off or "")
+
+
+def _dt_norm(c):
+    d, hm, sec, fr, off = c
+    return (d, hm, int(sec or 0), (fr or "").rstrip("0"), {"Z": "+00:00", "-00:00": "+00:00", None: None}.get(off, off))
+
+
+def datetime_literal_layer(ctx):
+    n = 0
+    for c in DT_LITERALS:
+        lit = _dt_text(c)
+        for tpl in DT_TEMPLATES:
+            text = tpl.replace("{L}", lit)
+            try:
+                tree = _ps.parse(_lx.tokenize(text))
+            except exceptions.ODataException:
+                continue
+            ctx.count("states")
+            for dname, cls in DIALECTS.items():
+                n += 1
+                ctx.count("executions")
+                ctx.count("transitions")
+                try:
+                    sql = cls(None).visit(tree)
+                except exceptions.ODataException:
+                    ctx.outcome(("datetime-literal", "refused"))
+                    continue
+                strs = [t for t in sqllex.lex(sql) if t.kind == "str"]
+                reads = []
+                for t in strs:
+                    m = _DT_READ.match(t.value)
+                    reads.append(_dt_norm(m.groups()) if m else None)
+                fixed = _dt_norm(("2001-01-01", "01:01", "01", None, "Z"))
+                want = [_dt_norm(c)] + ([fixed] if " in " in tpl else [])
+                if reads != want:
+                    ctx.violation("%s:datetime-literal" % dname, {"filter": text, "dialect": dname, "alias": None, "layer": "datetime-literals", "sql": sql,
+                                                                 "read_back": [list(r) if r else None for r in reads], "expected": [list(w) for w in want]})
+                else:
+                    ctx.outcome(("datetime-literal", "ok"))
+    return n
+
+
+# ---------------------------------------------------------------- table alias spellings (wave 13)
+ALIASES = ["T1", "Al", "my-alias", "t_1", "tbl 2", "\u00e9t\u00e9", "AL", "select"]
+ALIAS_FILTERS = ["n eq 1", "s eq 'a' and n gt 2", "contains(s, 'a') or b", "n in (1, 2)", "length(s) add n eq 3", "not (b eq true)", "Name eq name", "d gt 2020-01-01T00:00:00Z",
+                 "indexof(s, 'a') eq n", "concat(s, s) eq s"]
+
+
+def alias_spelling_layer(ctx):
+    n = 0
+    for text in ALIAS_FILTERS:
+        tree = _ps.parse(_lx.tokenize(text))
+        ctx.count("states")
+        for dname, cls in DIALECTS.items():
+            try:
+                plain = cls(None).visit(tree)
+            except exceptions.ODataException:
+                continue
+            for al in ALIASES:
+                n += 1
+                ctx.count("executions")
+                ctx.count("transitions")
+                try:
+                    sql = cls(al).visit(tree)
+                except Exception as e:  # noqa
+                    ctx.violation("%s:alias-spelling:%s" % (dname, type(e).__name__), {"filter": text, "dialect": dname, "alias": al, "layer": "alias-spellings"})
+                    continue
+                if alias_ok(plain, sql, al):
+                    ctx.outcome(("alias-spelling", "ok"))
+                else:
+                    ctx.violation("%s:alias-spelling" % dname, {"filter": text, "dialect": dname, "alias": al, "layer": "alias-spellings", "sql": sql, "sql_plain": plain})
     return n
 
 
@@ -899,6 +990,15 @@ def replay(ctx, case):
         odd_field_layer(acc)
         mine = [v for v in acc.violations if all(v["case"].get(k) == case.get(k) for k in ("filter", "dialect", "alias"))]
         return {"filter": text, "violations": mine, "ok": not mine}
+    if case.get("layer") == "datetime-literals":
+        acc = Acc()
+        datetime_literal_layer(acc)
+        mine = [v for v in acc.violations if v["case"]["filter"] == text and v["case"]["dialect"] == case["dialect"]]
+        return {"filter": text, "violations": mine, "ok": not mine}
+    if case.get("layer") == "alias-spellings":
+        tree = _ps.parse(_lx.tokenize(text))
+        plain, sql = DIALECTS[case["dialect"]](None).visit(tree), DIALECTS[case["dialect"]](case["alias"]).visit(tree)
+        return {"filter": text, "sql": sql, "sql_plain": plain, "ok": alias_ok(plain, sql, case["alias"])}
     if case.get("layer") == "keyword-case":
         outs = []
         for tx in (case["lower_case_filter"], text):
